@@ -5,3 +5,4 @@ import PG.Props.C03
 #print axioms PG.C03_no_inlined
 #print axioms PG.C03_nodup
 #print axioms PG.C03_class_local
+#print axioms PG.C03_cache
